@@ -99,20 +99,26 @@ def parseFrom (ret : Representation) : List Hint → Option Representation
 /-- `impl Parse for Representation`. -/
 def parseAttr (hs : List Hint) : Option Representation := parseFrom .default hs
 
+/-- `repr:` field of the closure of the `fold` in `get_repr`. -/
+def combineBase : BaseRepr → BaseRepr → Option BaseRepr
+  | a, .rust => some a
+  | .rust, b => some b
+  | _, _ => none                                       -- "conflicting representation hints"
+
+/-- `modifier:` field of the closure of the `fold` in `get_repr`. -/
+def combineMod : Option Modifier → Option Modifier → Option (Option Modifier)
+  | some (.packed a), some (.packed b) => if a ≠ b then none else some (some (.packed a))
+  | some (.align a), some (.align b) => some (some (.align (max a b)))
+  | some _, some _ => none                             -- "conflicting representation hints"
+  | a, none => some a
+  | none, b => some b
+
 /-- The closure of the `fold` in `get_repr`. -/
 def combine (r1 r2 : Representation) : Option Representation :=
-  match (match r1.repr, r2.repr with
-         | a, .rust => some a
-         | .rust, b => some b
-         | _, _ => none) with
-  | none => none                                                 -- "conflicting representation hints"
+  match combineBase r1.repr r2.repr with
+  | none => none
   | some repr =>
-    match (match r1.modifier, r2.modifier with
-           | some (.packed a), some (.packed b) => if a ≠ b then none else some (some (.packed a))
-           | some (.align a), some (.align b) => some (some (.align (max a b)))
-           | some _, some _ => none
-           | a, none => some a
-           | none, b => some b) with
+    match combineMod r1.modifier r2.modifier with
     | none => none
     | some modifier => some ⟨repr, modifier⟩
 
@@ -256,11 +262,15 @@ structure RRepr where
   /-- largest `align(n)` (1 if none) -/
   align : Nat
 
+def packsAgree : List Nat → Bool
+  | [] => true
+  | p :: ps => allEq p ps
+
 /-- Item-kind independent checks (`none` = compile error). -/
 def rustcRepr (hs : List Hint) : Option RRepr :=
   if hasTransparent hs && decide (hs.length > 1) then none               -- E0692
   else if decide ((intsOf hs).length > 1) then none                      -- E0566 (deny-by-default lint)
-  else if !(match packsOf hs with | [] => true | p :: ps => allEq p ps) then none  -- E0634
+  else if !packsAgree (packsOf hs) then none                             -- E0634
   else if !(packsOf hs).isEmpty && !(alignsOf hs).isEmpty then none      -- E0587
   else if !((packsOf hs ++ alignsOf hs).all pow2ok) then none            -- E0589
   else some { c := hasC hs, transparent := hasTransparent hs, int := (intsOf hs).head?,
